@@ -8,17 +8,43 @@ once per path (a block is not revisited), which is exact for the loop-free decid
 from .cfg import Renderer, branches, _labels_for
 
 
+import re as _re
+_IS_VARIANT = _re.compile(r"(?:Option::<T>|Result::<T, E>)::(is_some|is_none|is_ok|is_err)$")
+
+
 class PathLimit(Exception):
     pass
 
 
-def enumerate_paths(fv, rend=None, max_paths=50000):
+def enumerate_paths(fv, rend=None, max_paths=50000, loop_visits=2):
     """Yield (conds, blocks): conds = [(Branch, labels set)] in path order for switches not decided by a known constant,
     blocks = list of block indices.  Paths end at `ret` blocks (paths that end in unreachable / diverging calls are dropped)."""
     rend = rend or Renderer(fv, depth=10, through_names=True)
     brs = branches(fv, rend)
     out = []
     count = [0]
+    # a loop head may be passed `loop_visits` times on one path (enter the body once, come back, leave), other blocks once
+    heads = set()
+    for b in fv.live:
+        for _, s2 in fv.succ[b]:
+            if fv.dominates(s2, b):
+                heads.add(s2)
+    # the test that leaves a loop usually sits in the blocks right behind the head: every block that is part of a cycle may
+    # be passed `loop_visits` times
+    cyc = set()
+    for h in heads:
+        body = {b for b in fv.live if h in fv.reach(b) and b in fv.reach(h)}
+        cyc |= body | {h}
+    heads = cyc
+
+    def can_visit(seen, nb):
+        c = seen.get(nb, 0)
+        return c < (loop_visits if nb in heads else 1)
+
+    def visit(seen, nb):
+        s2 = dict(seen)
+        s2[nb] = s2.get(nb, 0) + 1
+        return s2
 
     def pkey(p):
         """(local, projection names) of a place; None if it has an index / deref of unknown target."""
@@ -78,10 +104,27 @@ def enumerate_paths(fv, rend=None, max_paths=50000):
                 if sk is not None and sk in env and env[sk] in (0, 1):
                     env[dk] = 0 if env[sk] else 1
                 continue
+            if rv["r"] == "ref":
+                sk = pkey(rv["p"])
+                if sk is not None:
+                    env[(dk[0], dk[1] + ("#refof",))] = sk
+                continue
+            if rv["r"] == "discr":
+                # discriminant of a place whose variant is known on this path (built by an aggregate earlier on it)
+                sk = pkey(rv["p"])
+                vn = env.get((sk[0], sk[1] + ("#variant",))) if sk is not None else None
+                if vn is not None:
+                    adt = fv.prog.adts.get(rv.get("adt")) or {}
+                    for v_ in adt.get("variants", []):
+                        if v_["n"] == vn:
+                            env[dk] = v_["d"]
+                continue
             if rv["r"] == "agg":
                 if rv.get("k") == "adt":
                     adt = fv.prog.adts.get(rv.get("adt")) or {}
                     is_enum = adt.get("kind") == "enum"
+                    if is_enum:
+                        env[(dk[0], dk[1] + ("#variant",))] = rv.get("v")
                     if is_enum and not rv["fields"]:
                         env[dk] = rv.get("v")
                     names = rv.get("fn") or [str(i) for i in range(len(rv["fields"]))]
@@ -114,6 +157,17 @@ def enumerate_paths(fv, rend=None, max_paths=50000):
             dk = pkey(t["dest"])
             if dk is not None:
                 kill(env, dk)
+            # is_some / is_none / is_ok / is_err of a place whose variant is known on this path
+            nm_ = (t["f"].get("name") or "")
+            m_ = _IS_VARIANT.search(nm_)
+            if m_ and dk is not None and t.get("args"):
+                q = t["args"][0].get("c") or t["args"][0].get("m")
+                ak = pkey(q) if q is not None else None
+                src = env.get((ak[0], ak[1] + ("#refof",))) if ak is not None else None
+                vn = env.get((src[0], src[1] + ("#variant",))) if src is not None else None
+                if vn is not None:
+                    want = {"is_some": "Some", "is_none": "None", "is_ok": "Ok", "is_err": "Err"}[m_.group(1)]
+                    env[dk] = 1 if vn == want else 0
             # a callee that gets `&mut x` may change x
             for a in t.get("args", []):
                 q = a.get("c") or a.get("m")
@@ -153,8 +207,8 @@ def enumerate_paths(fv, rend=None, max_paths=50000):
                         tgt = cb
                 if tgt is None:
                     tgt = t["else"]
-                if tgt in fv.live and tgt not in seen:
-                    go(tgt, env, conds, blocks, seen | {tgt})
+                if tgt in fv.live and can_visit(seen, tgt):
+                    go(tgt, env, conds, blocks, visit(seen, tgt))
                 return
             br = brs.get(b)
             # a switch on a local that is written in several places (the result slot of an expanded closure / combinator,
@@ -188,7 +242,7 @@ def enumerate_paths(fv, rend=None, max_paths=50000):
             done = set()
             pure_key = _pure_key(br.expr) if br is not None else None
             for v, nb in succ:
-                if nb in seen or nb not in fv.live or (v, nb) in done:
+                if not can_visit(seen, nb) or nb not in fv.live or (v, nb) in done:
                     continue
                 done.add((v, nb))
                 labels = _labels_for(br, fv.prog, v) if br is not None else {str(v)}
@@ -197,12 +251,12 @@ def enumerate_paths(fv, rend=None, max_paths=50000):
                     prev = [l for b0, l in conds if _pure_key(b0.expr) == pure_key]
                     if prev and not (frozenset(labels) & prev[-1]) and "else" not in labels and "else" not in prev[-1]:
                         continue
-                go(nb, env, conds + [(br, frozenset(labels))], blocks, seen | {nb})
+                go(nb, env, conds + [(br, frozenset(labels))], blocks, visit(seen, nb))
             return
         for v, nb in succ:
-            if nb in seen or nb not in fv.live:
+            if not can_visit(seen, nb) or nb not in fv.live:
                 continue
-            go(nb, env, conds, blocks, seen | {nb})
+            go(nb, env, conds, blocks, visit(seen, nb))
 
     from .cfg import walk as _walk, show as _show
 
@@ -219,5 +273,5 @@ def enumerate_paths(fv, rend=None, max_paths=50000):
                     return None
         return _show(e, 300)
 
-    go(fv.entry, {}, [], [], {fv.entry})
+    go(fv.entry, {}, [], [], {fv.entry: 1})
     return out
